@@ -143,6 +143,23 @@ def _cache_entry_origin(prog, mod, key):
 def _wiring(prog, rep, fi, call):
     assigns = local_assignments(fi.node)
     kw = {k.arg: k.value for k in call.keywords if k.arg}
+    opaque_kw = False
+    a_ = fi.node.args
+    for k in call.keywords:
+        if k.arg is None:
+            d_ = k.value
+            if isinstance(d_, ast.Name) and a_.kwarg is not None and d_.id == a_.kwarg.arg:
+                continue                       # the caller's own **kwargs: extra user options
+            if isinstance(d_, ast.Name) and len([x for x in assigns.get(d_.id, []) if isinstance(x, ast.AST)]) == 1:
+                d_ = assigns[d_.id][0]
+            if isinstance(d_, ast.Dict) and all(isinstance(kk, ast.Constant) for kk in d_.keys):
+                for kk, vv in zip(d_.keys, d_.values):
+                    kw.setdefault(kk.value, vv)
+            elif isinstance(d_, ast.Call) and dotted(d_.func) == "dict" and not d_.args and all(x.arg for x in d_.keywords):
+                for x in d_.keywords:
+                    kw.setdefault(x.arg, x.value)
+            else:
+                opaque_kw = True
     nested = {f.name: f for f in prog.nested_functions(fi) if f.parent is fi}
     fname = fi.name
 
@@ -174,6 +191,9 @@ def _wiring(prog, rep, fi, call):
 
     roles = {"fun": "obj_fn", "jac": "grad_fn", "hess": "hess_fn", "bounds": "bounds", "constraints": "scipy_constraints"}
     for k, key in roles.items():
+        if k not in kw and opaque_kw:
+            rep.undecided(f"{fname}:minimize({k}=): the keyword arguments are spread from a mapping this rule cannot read")
+            continue
         if k not in kw:
             rep.ob("R09.1", f"{fname}:minimize({k}=)", False, f"minimize() is called without {k}=", loc=f"{fi.module.rel}:{call.lineno}", detail="role")
             continue
@@ -196,6 +216,9 @@ def _wiring(prog, rep, fi, call):
             continue
         rep.ob("R09.1", f"{fname}:minimize({k}=)", ok, why_ok if ok else f"{k} is fed from cache entry {got!r} (expected {key!r})", loc=f"{fi.module.rel}:{call.lineno}", detail="role")
     for k in ("x0", "method", "tol"):
+        if k not in kw and opaque_kw:
+            rep.undecided(f"{fname}:minimize({k}=): the keyword arguments are spread from a mapping this rule cannot read")
+            continue
         ok = k in kw and src(kw[k]) == k
         rep.ob("R09.1", f"{fname}:minimize({k}=)", ok, f"{k} is forwarded unchanged" if ok else f"{k} is not forwarded unchanged ({src(kw[k]) if k in kw else 'missing'})", loc=f"{fi.module.rel}:{call.lineno}", detail="forwarded")
     # jac withheld exactly for the derivative-free set
@@ -309,6 +332,7 @@ def _success_optimal(prog, rep, fi, call):
         flags = {nm for nm, vals in local_assignments(fi.node).items() if any(isinstance(v, ast.Constant) and v.value is False for v in vals) and "violat" in nm}
     prem = And(atom(f"{res}.success"), *[Not(atom(f)) for f in sorted(flags)])
     bad = []
+    unk = []
     from ..astutil import enclosing
     tr = enclosing(call, ast.Try)
     after = tr.end_lineno if tr is not None else call.lineno
@@ -317,8 +341,17 @@ def _success_optimal(prog, rep, fi, call):
             continue
         pc = path_condition(n)
         if counterexample(TRUE, Not(And(pc, prem))) is not None:
-            # satisfiable: a non-OPTIMAL status under success & no violation
+            # satisfiable: a non-OPTIMAL status under success & no violation -- believed only when the path hinges on
+            # nothing but the backend's result, the violation flags and the method (any other atom, e.g. "an exception
+            # was recorded earlier", is outside what this propositional rule knows)
+            foreign = sorted(a for a in pc.atoms() if not (f"{res}." in a or a in flags or a.startswith("method ") or "method" == a.split(" ")[0]))
+            if foreign:
+                unk.append((st, n, foreign[0]))
+                continue
             bad.append((st, n))
+    if unk and not bad:
+        rep.undecided(f"{fi.name}:status-ladder: status {unk[0][0]} (line {unk[0][1].lineno}) is guarded by `{unk[0][2][:50]}`, which this rule cannot relate to SciPy's success flag")
+        return
     rep.ob("R09.6", f"{fi.name}:status-ladder", not bad, "with success and no violation the only reachable status is OPTIMAL" if not bad else f"status {bad[0][0]} is reachable although SciPy reported success and no constraint is violated", loc=f"{fi.module.rel}:{bad[0][1].lineno}" if bad else fi.loc, detail="success=>OPTIMAL")
 
 
@@ -381,6 +414,10 @@ def _x0(prog, rep):
         raise AnalysisError("initial-point routine: per-variable loop not found")
     loop = loop[0]
     env = {}
+    for st in fi.module.tree.body:      # module-level tuning constants (offsets moved out of the function)
+        tg = st.targets[0] if isinstance(st, ast.Assign) and len(st.targets) == 1 else st.target if isinstance(st, ast.AnnAssign) else None
+        if isinstance(tg, ast.Name) and isinstance(getattr(st, "value", None), (ast.Constant, ast.BinOp, ast.UnaryOp)):
+            env[tg.id] = st.value
     for n in walk_local(fi.node, include_self=False):
         if isinstance(n, ast.Assign) and isinstance(n.targets[0], ast.Name):
             env[n.targets[0].id] = n.value
@@ -452,6 +489,16 @@ def _x0(prog, rep):
         need_lb, need_ub = fin_lb, fin_ub
         ok = (not need_lb or ge_lb(e)) and (not need_ub or le_ub(e))
         seen += 1
+        if not ok:
+            # positively outside: an offset added to the upper bound / subtracted from the lower one, or -- with both
+            # bounds finite -- a one-sided offset that nothing caps (lb + c may exceed ub).  Anything else is not decided.
+            def shifted(e_, base, op):
+                return isinstance(e_, ast.BinOp) and isinstance(e_.op, op) and ((src(e_.left) == base and positive(e_.right)) or (isinstance(e_.op, ast.Add) and src(e_.right) == base and positive(e_.left)))
+            outside = (need_ub and shifted(e, "ub", ast.Add)) or (need_lb and shifted(e, "lb", ast.Sub)) or \
+                (need_lb and need_ub and (shifted(e, "lb", ast.Add) or shifted(e, "ub", ast.Sub)))
+            if not outside:
+                rep.undecided(f"{fi.name}: case `{t}`: x0 = {src(e)[:50]} -- whether it lies within the finite bound(s) is not decided by this rule")
+                continue
         rep.ob("R09.4", f"{fi.name}", ok,
                f"case `{t}`: x0 = {src(e)} lies within the finite bound(s)" if ok else f"case `{t}`: x0 = {src(e)} is not provably within [lb, ub] (offsets must be added to a lower bound / subtracted from an upper bound, two-sided case capped by the midpoint)",
                loc=f"{fi.module.rel}:{e.lineno}", detail=f"case:{t}")
